@@ -18,7 +18,7 @@ import session as S
 
 PID = "C16"
 CONTEXTS = ["alone", "sum-right", "sum-left", "argument", "exponent", "numerator", "denominator", "sentence-end",
-            "in-parens", "in-set", "two-arguments", "expression-end"]
+            "in-parens", "in-set", "two-arguments", "expression-end", "sum-after-open-fence", "sum-before-close-fence"]
 # (name, preference settings, decimal mark, block separators to draw from)
 NB, NNB = "\u00a0", "\u202f"
 LOCALES = [("US", [], ".", [",", NB, NNB]),
@@ -63,7 +63,9 @@ def in_context(n, ctx):
             "numerator": f"<math><mfrac>{row}<mi>y</mi></mfrac></math>", "denominator": f"<math><mfrac><mi>y</mi>{row}</mfrac></math>",
             "sentence-end": f"<math><mi>a</mi><mo>=</mo>{n}<mo>.</mo></math>", "in-parens": f"<math><mo>(</mo>{n}<mo>)</mo></math>",
             "in-set": f"<math><mo>{{</mo>{n}<mo>}}</mo></math>", "two-arguments": f"<math><mi>f</mi><mo>(</mo>{n}<mo>)</mo></math>",
-            "expression-end": f"<math><mi>x</mi><mo>=</mo>{n}</math>"}[ctx]
+            "expression-end": f"<math><mi>x</mi><mo>=</mo>{n}</math>",
+            "sum-after-open-fence": f"<math><mn>2</mn><mo>(</mo>{n}<mo>+</mo><mi>x</mi><mo>)</mo></math>",
+            "sum-before-close-fence": f"<math><mn>2</mn><mo>(</mo><mi>x</mi><mo>+</mo>{n}<mo>)</mo></math>"}[ctx]
 
 
 def run(tier):
